@@ -4,6 +4,7 @@
 #include "mesh_probe.hpp"
 #include <map>
 #include "shapes.hpp"
+#include "local_mesh_refiner.hpp"
 #include "contact_node_node_via_coupling.hpp"
 #include "contact_node_face_via_spring.hpp"
 #include "contact_face_face_via_coupling.hpp"
@@ -66,7 +67,48 @@ static global_simulation_parameters params(double lmin, double cut_adh, double c
 }
 static void zero(std::vector<cell_ptr>& L) { for (auto& c : L) for (auto& n : cell_tester::nodes(*c)) n.set_force(vec3(0, 0, 0)); }
 
+// ---- "bigpop": a population of 65538 cells whose only contact is between the LAST two (list positions 65536 and 65537): every
+// coupling the contact phase stores must designate the other cell of that doublet and a live node of it (C08 for any number of cells)
+static int run_bigpop(const char* out_path) {
+    FILE* fo = fopen(out_path, "w");
+    vj::out o; o.obj().key("op").str("bigpop").key("model").i(CONTACT_MODEL_INDEX);
+#if CONTACT_MODEL_INDEX == 0
+    o.key("ncells").i(0).key("ncoupl").i(0).key("bad").i(0).key("skipped").b(true).end_obj();
+#else
+    const size_t N = 65538;
+    std::vector<cell_ptr> L; L.reserve(N);
+    shapes::tmesh tet = shapes::tetrahedron();
+    for (size_t i = 0; i < N; i++) {
+        shapes::tmesh m = i >= N - 2 ? shapes::box(1, 1, 1) : tet;
+        const double x = i >= N - 2 ? -50. + (i == N - 1 ? 1.02 : 0.) : 10. * (double)(i % 256), y = i >= N - 2 ? -50. : 10. * (double)(i / 256);
+        for (size_t q = 0; q < m.nn(); q++) { m.pos[3 * q] += x; m.pos[3 * q + 1] += y; }
+        L.push_back(make_cell(m.pos, m.tris, (unsigned)i, 0));
+    }
+    open_model mdl(params(0.5, 0.1, 0.1));
+    mdl.run(L);
+    long ncoupl = 0, bad = 0;
+    for (size_t i = 0; i < N; i++) for (auto& n : cell_tester::nodes(*L[i])) {
+        if (!n.is_used() || !n.is_coupled()) continue;
+        auto check = [&](unsigned c2, unsigned n2) {
+            ncoupl++;
+            const bool doublet = i >= N - 2 && c2 == (i == N - 1 ? N - 2 : N - 1);
+            if (!doublet || n2 >= cell_tester::nodes(*L[c2 < N ? c2 : 0]).size() || !cell_tester::nodes(*L[c2 < N ? c2 : 0])[n2].is_used()) bad++;
+        };
+#if CONTACT_MODEL_INDEX == 1
+        auto pr = n.get_coupled_node(); check(pr.first, pr.second);
+#else
+        for (auto& kv : cell_tester::coupled_map(n)) check(kv.first, kv.second.first);
+#endif
+    }
+    o.key("ncells").i(N).key("ncoupl").i(ncoupl).key("bad").i(bad).key("skipped").b(false).end_obj();
+#endif
+    fprintf(fo, "%s\n", o.text().c_str());
+    fclose(fo);
+    return 0;
+}
+
 int main(int argc, char** argv) {
+    if (argc >= 3 && std::string(argv[1]) == "bigpop") return run_bigpop(argv[2]);
     if (argc < 4) return 2;
     const std::string mode = argv[1];
     auto cases = vj::read_ndjson(argv[2]);
@@ -125,6 +167,29 @@ int main(int argc, char** argv) {
                     auto at = cc["at"].dvec();
                     for (size_t q = 0; q < m.nn(); q++) for (int a = 0; a < 3; a++) m.pos[3 * q + a] = u * (m.pos[3 * q + a] * cc["k"].d() + at[a]);
                     dst.push_back(make_cell(m.pos, m.tris, (unsigned)i, (int)cc["type"].i(), cc.has("frag") ? (unsigned)cc["frag"].i() : 0u, cc.has("fragn") && cc["fragn"].boolean(), cc.has("id") ? cc["id"].i() : -1L));
+                }
+            }
+            // "splits": the contact phase right after a remeshing step, as in solver::run_iteration (refine, then contact, and only
+            // then the refresh of all cached normals inside apply_internal_forces): k real edge splits per cell, identical in the three
+            // copies; ONLY the reference copy gets its cached face normals / areas refreshed.  Whatever the split leaves cached on the
+            // faces it creates must therefore already be what a refresh would compute.
+            if (C.has("splits")) {
+                const long k = C["splits"].i();
+                local_mesh_refiner rf(1e-30, 1e30, false);
+                for (int pass = 0; pass < 3; pass++) {
+                    auto& lst = pass == 0 ? L : pass == 1 ? Lref : Lre;
+                    for (auto& c : lst) {
+                        for (long j = 0; j < k; j++) {
+                            const size_t ne = c->get_edge_set().size();
+                            auto it = c->get_edge_set().begin(); std::advance(it, (size_t)((j * 7919 + 3) % (long)ne));
+                            edge e = *it; edge_set dummy;
+                            rf.split_edge(e, c, dummy);
+                        }
+                        if (pass == 1) c->update_all_face_normals_and_areas();
+#if CONTACT_MODEL_INDEX == 1 || CONTACT_MODEL_INDEX == 2
+                        c->compute_node_curvature_and_normals();
+#endif
+                    }
                 }
             }
             const double lmin = C["lmin"].d() * u, cut = C["cut"].d() * u;
